@@ -5,6 +5,7 @@ import (
 	"go/ast"
 	"go/token"
 	"go/types"
+	"golang.org/x/tools/go/cfg"
 	"sort"
 )
 
@@ -34,6 +35,8 @@ func checkC12(p *Prog, r *Report) {
 	r.rule("C12.K3", "every heap/sort comparator over SEQ or FECID elements (segmentHeap.Less, shardHeap.Less, the sort.Slice closure over pulses) orders through the signed difference", 3)
 	r.rule("C12.K4", "_itimediff is int32(later - earlier); currentMs is the only clock source of the core and truncates to uint32", 2)
 	r.rule("C12.K5", "paws is computed as 0xffffffff / shardSize * shardSize at every store; every advance of the encoder id is reduced modulo paws", 5)
+	r.rule("C12.K6", "a core timer field that does not start from the clock (constructor constant or zero value, i.e. an absolute clock position) is compared with the clock only after it has been re-based: every read in a signed difference lies behind a store from the clock or behind a test of an 'initialised' field whose zero edge stores from the clock or returns", 3)
+	checkTimerRebase(p, r)
 	ka := p.Kinds()
 	seen := map[string]int{}
 	key := func(fn *FuncInfo, n ast.Node, what string) string {
@@ -197,7 +200,7 @@ func checkC12(p *Prog, r *Report) {
 				r.bad("C12.K5", st.Fn.Name, p.Pos(st.Node), "store("+own+".paws)", "paws modified in place", "")
 				continue
 			}
-			t := p.Term(st.Rhs)
+			t := p.ExpandHelpers(p.Term(st.Rhs))
 			// 0xffffffff / S * S with S = conv(shardSize)
 			ok := false
 			if t.Op == "*" && len(t.Args) == 2 {
@@ -209,6 +212,26 @@ func checkC12(p *Prog, r *Report) {
 				}
 			}
 			r.check(ok, "C12.K5", st.Fn.Name, p.Pos(st.Node), "store("+own+".paws)", "0xffffffff / shardSize * shardSize", "paws is not computed as 0xffffffff / shardSize * shardSize (must be a multiple of the group size so that type and position stay aligned across the wrap): "+pretty(t.Key()))
+		}
+	}
+	// paws follows the group size: a store to shardSize is followed (dominated) by a store to paws in the same function
+	for _, own := range []string{"fecDecoder", "fecEncoder"} {
+		for _, st := range p.FieldStores(p.Field(own, "shardSize")) {
+			if st.InLit {
+				continue
+			}
+			cf := p.CFG(st.Fn)
+			spt, _ := cf.PointOf(st.Node)
+			follows := false
+			for _, ps := range p.FieldStores(p.Field(own, "paws")) {
+				if ps.Fn != st.Fn {
+					continue
+				}
+				if q, ok := cf.PointOf(ps.Node); ok && cf.Dominates(spt, q) {
+					follows = true
+				}
+			}
+			r.check(follows, "C12.K5", st.Fn.Name, p.Pos(st.Node), "store("+own+".shardSize) is followed by a store to paws", "paws recomputed for the new group size", "the group size changes but paws keeps the value of the old size: it is no longer a multiple of the group size (types drift against positions after the wrap), and ids the peer legitimately uses just below its own wrap value are refused")
 		}
 	}
 	fNext := p.Field("fecEncoder", "next")
@@ -379,4 +402,169 @@ func parityPositive(p *Prog) bool {
 		ok = true
 	}
 	return ok
+}
+
+// checkTimerRebase: C12.K6 for KCP.ts_flush and KCP.ts_probe.
+func checkTimerRebase(p *Prog, r *Report) {
+	itd := p.Func("_itimediff")
+	clockFn := p.Func("currentMs")
+	for _, fname := range []string{"ts_flush", "ts_probe"} {
+		f := p.Field("KCP", fname)
+		// started from the clock by the constructor?
+		fromClock := false
+		for _, st := range p.FieldStores(f) {
+			if st.Fn.Name == "NewKCP" && st.Rhs != nil {
+				p.Term(st.Rhs).Walk(func(x *Term) {
+					if x.Op == "call" && x.Obj == clockFn {
+						fromClock = true
+					}
+				})
+			}
+		}
+		if fromClock {
+			r.ok("C12.K6", "NewKCP", "-", "KCP."+fname, "starts from the clock")
+			continue
+		}
+		for _, fi := range p.funcs {
+			if fi.Lit != nil || fi.Body == nil || fi.Name == "NewKCP" {
+				continue
+			}
+			c := p.CFG(fi)
+			// clock-derived locals of this function
+			clockVars := map[*types.Var]bool{}
+			ast.Inspect(fi.Body, func(n ast.Node) bool {
+				if as, ok := n.(*ast.AssignStmt); ok && len(as.Lhs) == 1 && len(as.Rhs) == 1 {
+					if id, ok := as.Lhs[0].(*ast.Ident); ok {
+						if t := p.Term(as.Rhs[0]); t.Op == "call" && t.Obj == clockFn {
+							if v, ok := p.Info.Defs[id].(*types.Var); ok {
+								clockVars[v] = true
+							} else if v, ok := p.Info.Uses[id].(*types.Var); ok {
+								clockVars[v] = true
+							}
+						}
+					}
+				}
+				return true
+			})
+			isClockDerived := func(t *Term) bool {
+				hit := false
+				t.Walk(func(x *Term) {
+					if x.Op == "call" && x.Obj == clockFn {
+						hit = true
+					}
+					if x.Op == "var" {
+						if v, ok := x.Obj.(*types.Var); ok && clockVars[v] {
+							hit = true
+						}
+					}
+				})
+				return hit
+			}
+			isRebase := func(n ast.Node, _ Point) bool {
+				as, ok := n.(*ast.AssignStmt)
+				if !ok {
+					return false
+				}
+				for i, l := range as.Lhs {
+					if t := p.Term(l); t.Op == "fld" && t.Obj == f && i < len(as.Rhs) && as.Tok == token.ASSIGN && isClockDerived(p.Term(as.Rhs[i])) {
+						return true
+					}
+				}
+				return false
+			}
+			// reads: the field (or a local copy of it) as an operand of _itimediff together with a clock value
+			copies := map[*types.Var]bool{}
+			ast.Inspect(fi.Body, func(n ast.Node) bool {
+				if as, ok := n.(*ast.AssignStmt); ok && len(as.Lhs) == 1 && len(as.Rhs) == 1 {
+					if t := p.Term(as.Rhs[0]); t.Op == "fld" && t.Obj == f {
+						if id, ok := as.Lhs[0].(*ast.Ident); ok {
+							if v, ok := p.Info.Defs[id].(*types.Var); ok {
+								copies[v] = true
+							}
+						}
+					}
+				}
+				return true
+			})
+			n := 0
+			ast.Inspect(fi.Body, func(x ast.Node) bool {
+				call, ok := x.(*ast.CallExpr)
+				if !ok || p.Callee(call) != itd || len(call.Args) != 2 {
+					return true
+				}
+				reads, withClock := false, false
+				for _, a := range call.Args {
+					t := p.Term(a)
+					t.Walk(func(y *Term) {
+						if y.Op == "fld" && y.Obj == f {
+							reads = true
+						}
+						if y.Op == "var" {
+							if v, ok := y.Obj.(*types.Var); ok && copies[v] {
+								reads = true
+							}
+						}
+					})
+					if isClockDerived(t) {
+						withClock = true
+					}
+				}
+				if !reads || !withClock {
+					return true
+				}
+				n++
+				if n > 1 {
+					return true // the first comparison decides (later ones follow a possible re-base)
+				}
+				pt, _ := c.PointOf(call)
+				res := c.FindPath(PathQuery{From: Point{c.Entry(), 0}, IsTarget: func(_ ast.Node, q Point) bool { return q == pt }, IsBarrier: isRebase,
+					EdgeOK: func(from, to *cfg.Block) bool {
+						// the zero edge of a test of an 'initialised' field: it stores from the clock or returns
+						ct := c.CondTerm(from)
+						if ct == nil || len(from.Succs) != 2 {
+							return true
+						}
+						zeroEdge := -1
+						if ct.Op == "==" && len(ct.Args) == 2 && ((ct.Args[0].IsConst() && ct.Args[0].Int == 0 && ct.Args[1].Op == "fld") || (ct.Args[1].IsConst() && ct.Args[1].Int == 0 && ct.Args[0].Op == "fld")) {
+							zeroEdge = 0
+						}
+						if ct.Op == "!=" && len(ct.Args) == 2 && ((ct.Args[0].IsConst() && ct.Args[0].Int == 0 && ct.Args[1].Op == "fld") || (ct.Args[1].IsConst() && ct.Args[1].Int == 0 && ct.Args[0].Op == "fld")) {
+							zeroEdge = 1
+						}
+						if zeroEdge < 0 || to != from.Succs[zeroEdge] {
+							return true
+						}
+						// the zero edge: does it store from the clock or return in its first block?
+						for _, nd := range to.Nodes {
+							if isRebase(nd, Point{}) {
+								return false // re-based on this edge: the path is fine, do not follow it as a violation
+							}
+							if _, isRet := nd.(*ast.ReturnStmt); isRet {
+								return false
+							}
+						}
+						return true
+					}})
+				if res.Found {
+					// a path reached the comparison without re-basing and without passing an initialised test... unless such a test exists on the path with the non-zero edge taken
+					passedInitTest := false
+					for _, q := range res.Path {
+						if ct := c.CondTerm(q.B); ct != nil && (ct.Op == "==" || ct.Op == "!=") && len(ct.Args) == 2 {
+							for i := 0; i < 2; i++ {
+								if ct.Args[i].IsConst() && ct.Args[i].Int == 0 && ct.Args[1-i].Op == "fld" && ct.Args[1-i].Obj != f {
+									passedInitTest = true
+								}
+							}
+						}
+					}
+					if !passedInitTest {
+						r.bad("C12.K6", fi.Name, p.Pos(call), "first comparison of KCP."+fname+" with the clock in "+fi.Name, "the timer is compared with the clock although nothing has re-based it on the clock since construction: its initial value is an absolute clock position, so the behaviour depends on where the 32-bit clock stands when the object is created (e.g. a connection created shortly before the wrap stays silent until the clock reaches that position)", c.DescribePath(res.Path))
+						return true
+					}
+				}
+				r.ok("C12.K6", fi.Name, p.Pos(call), "first comparison of KCP."+fname+" with the clock in "+fi.Name, "behind a store from the clock or an 'initialised' test")
+				return true
+			})
+		}
+	}
 }
